@@ -85,6 +85,19 @@ func c05spec(c c05case) Spec {
 		} else {
 			addN(PNode{Op: "reshard", Shards: c.NShard})
 		}
+	case "repartition2":
+		// one slice feeds two Repartitions with different functions and the same shard count in
+		// one invocation (joined by a Cogroup): each must be partitioned by its own function
+		addN(PNode{Op: "reshard", Shards: c.NShard})
+		src := last
+		nodes = append(nodes, PNode{Op: "repartition", In: []int{src}, Salt: c.Seed})
+		nodes = append(nodes, PNode{Op: "writerfunc", In: []int{len(nodes) - 1}})
+		w1 := len(nodes) - 1
+		nodes = append(nodes, PNode{Op: "repartition", In: []int{src}, Salt: c.Seed + 977})
+		nodes = append(nodes, PNode{Op: "writerfunc", In: []int{len(nodes) - 1}})
+		w2 := len(nodes) - 1
+		nodes = append(nodes, PNode{Op: "cogroup", In: []int{w1, w2}})
+		return Spec{Nodes: nodes}
 	case "repartition":
 		addN(PNode{Op: "reshard", Shards: c.NShard})
 		addN(PNode{Op: "repartition", Salt: c.Seed})
@@ -139,6 +152,42 @@ func runC05case(t *vf.T, pool *sessionPool, c c05case) {
 	if d := compareResult(out.Rows, want); d != "" {
 		// distinguish the ±0 class: equal keys emitted twice
 		t.Violate(sigBase+" rows"+c05zeroClass(out.Rows, len(c.Kinds)), d)
+		return
+	}
+	if c.Op == "repartition2" {
+		pr := probeFor(sp.Run)
+		checked := 0
+		for wi, n := range sp.Nodes {
+			if n.Op != "writerfunc" {
+				continue
+			}
+			rp := &sp.Nodes[n.In[0]]
+			nshard := rels[wi].nshard()
+			for s := 0; s < nshard; s++ {
+				pr.mu.Lock()
+				e := pr.entries[recKey{sp.Run, wi, s}]
+				var rows []row
+				if e != nil && len(e.Attempts) > 0 {
+					rows = append(rows, e.Attempts[len(e.Attempts)-1].Rows...)
+				}
+				pr.mu.Unlock()
+				for _, r := range rows {
+					checked++
+					if want := partitionOf(rp, r, nshard); want != s {
+						t.Violate(sigBase+" repartition-wrong-shard", fmt.Sprintf("two Repartitions of one slice: row %s of the one with salt %d is in shard %d, its partition function returned %d", progRowStr(r), rp.Salt, s, want))
+						return
+					}
+				}
+			}
+		}
+		if checked != 2*rels[0].count() {
+			t.Violate(sigBase+" recorder-count", fmt.Sprintf("the two writers saw %d rows, expected %d", checked, 2*rels[0].count()))
+			return
+		}
+		t.Count("rows_placed", int64(checked))
+		t.Count("runs", 1)
+		t.Count("two_repartition_runs", 1)
+		t.Nontrivial("")
 		return
 	}
 	// per-shard placement from the writerfunc after the redistributing operator
@@ -280,6 +329,17 @@ func runC05(r *vf.Runner) {
 					continue
 				}
 				run(c05case{Conf: localP4, Kinds: []string{k}, Op: op, Producers: prod, NShard: n, KeySet: "random", NKeys: 400, Rot: 37 * pi, Dup: 2, Seed: uint64(n)})
+			}
+		}
+	}
+	// two Repartitions of one slice in one invocation
+	for i, k := range []string{"int", "string", "uint16"} {
+		for _, n := range []int{2, 3, 7} {
+			for _, conf := range []sessConf{localP4, bm2} {
+				if r.Quick() && conf.Kind != "local" && (i+n)%2 == 0 {
+					continue
+				}
+				run(c05case{Conf: conf, Kinds: []string{k}, Op: "repartition2", Producers: 2, NShard: n, KeySet: "random", NKeys: 300, Dup: 1, Seed: uint64(10 + n)})
 			}
 		}
 	}
